@@ -110,13 +110,15 @@ Fixpoint split_colon (s : str) : option (str * str) :=
   end.
 
 Definition has_colon (s : str) : bool := existsb (N.eqb 58) s.
+Definition has_slash (s : str) : bool := existsb (N.eqb 47) s.
 
-(* a lexically sane QName: "local" or "prefix:local", both non-empty, one colon at most *)
+(* a lexically sane QName: "local" or "prefix:local", both non-empty, one colon at most,
+   no "/" in the local part (NCNames have none) *)
 Definition qname_lexical (s : str) : bool :=
   match split_colon s with
-  | None => negb (match s with [] => true | _ => false end)
+  | None => negb (match s with [] => true | _ => false end) && negb (has_slash s)
   | Some (p, l) => negb (match p with [] => true | _ => false end)
-                   && negb (match l with [] => true | _ => false end) && negb (has_colon l)
+                   && negb (match l with [] => true | _ => false end) && negb (has_colon l) && negb (has_slash l)
   end.
 
 (* expanded name (namespace URI, local); an unprefixed QName takes the default namespace
@@ -198,7 +200,21 @@ Definition obind {A B} (o : option A) (f : A -> option B) : option B :=
   match o with Some x => f x | None => None end.
 Definition olist {A} (o : option A) : list A := match o with Some x => [x] | None => [] end.
 
-Definition mk_tref (u l : str) : tref := if str_eqb u XSD_NS then TNative l else TRef u l.
+(* XSD: an element whose type is a user-defined simple type carries text of the builtin the
+   type restricts, and a data-binding tool may represent it by that builtin.  `simple_types`
+   lists the global simple types of the schemas: (namespace, name, builtin base | None when
+   the binding keeps the type, e.g. an enumeration). *)
+Definition simple_types := list (str * str * option str).
+Fixpoint simple_base (e : simple_types) (u l : str) : option str :=
+  match e with
+  | [] => None
+  | (u', l', b) :: r => if str_eqb u' u && str_eqb l' l then b else simple_base r u l
+  end.
+
+(* the component a part given by type refers to *)
+Definition mk_tref (e : simple_types) (u l : str) : tref :=
+  if str_eqb u XSD_NS then TNative l
+  else match simple_base e u l with Some b => TNative b | None => TRef u l end.
 
 (* WSDL 1.1 3.3 / 3.4: soap:operation style, else soap:binding style, else "document" *)
 Definition effective_style (b : binding) (bo : b_operation) : str :=
@@ -217,32 +233,32 @@ Definition select_parts (m : message) (parts : option str) : list part :=
 
 (* a part appearing directly under Body (document style), Header or detail:
    by element -> that element; by type -> the type is the type of the enclosing element *)
-Definition direct_part_item (req : bool) (p : part) : option item :=
+Definition direct_part_item (st : simple_types) (req : bool) (p : part) : option item :=
   match part_element p, part_type p with
   | Some e, _ => match resolve_qname (part_ns p) e with
                  | Some (u, l) => Some (Leaf u l req (TRef u l)) | None => None end
   | None, Some t => match resolve_qname (part_ns p) t with
-                    | Some (u, l) => Some (Content (mk_tref u l)) | None => None end
+                    | Some (u, l) => Some (Content (mk_tref st u l)) | None => None end
   | None, None => None
   end.
 
 (* a part of an rpc message: an accessor named after the part, in no namespace
    (WSDL 1.1 3.5; WS-I BP 1.1 R2735), of the part's type / containing the part's element *)
-Definition rpc_part_item (p : part) : option item :=
+Definition rpc_part_item (st : simple_types) (p : part) : option item :=
   match part_element p, part_type p with
   | Some e, _ => match resolve_qname (part_ns p) e with
                  | Some (u, l) => Some (Node [] (part_name p) true [Leaf u l true (TRef u l)]) | None => None end
   | None, Some t => match resolve_qname (part_ns p) t with
-                    | Some (u, l) => Some (Leaf [] (part_name p) true (mk_tref u l)) | None => None end
+                    | Some (u, l) => Some (Leaf [] (part_name p) true (mk_tref st u l)) | None => None end
   | None, None => None
   end.
 
-Definition header_items (d : definitions) (bm : b_msg) : list item :=
-  flat_map (fun e =>
-    match e with
+Definition header_items (st : simple_types) (d : definitions) (bm : b_msg) : list item :=
+  flat_map (fun x =>
+    match x with
     | SoapHeader msg prt _ =>
         match find_message d (bm_ns bm) msg with
-        | Some m => flat_map (fun p => olist (direct_part_item true p))
+        | Some m => flat_map (fun p => olist (direct_part_item st true p))
                              (filter (fun p => str_eqb (part_name p) prt) (msg_parts m))
         | None => []
         end
@@ -263,10 +279,10 @@ Definition the_body (bm : b_msg) : option (option str * option str * option str)
    (WSDL 1.1 3.6), each optional because one fault carries one of them.  With no declared
    fault the content of detail is not prescribed by the WSDL; the weakest reading (text)
    is recorded here, see design.d/C17.md "undeclared detail entries". *)
-Definition fault_details (d : definitions) (faults : list pt_msg) : list item :=
+Definition fault_details (st : simple_types) (d : definitions) (faults : list pt_msg) : list item :=
   flat_map (fun f =>
     match find_message d (ptm_ns f) (ptm_message f) with
-    | Some m => flat_map (fun p => olist (direct_part_item false p)) (msg_parts m)
+    | Some m => flat_map (fun p => olist (direct_part_item st false p)) (msg_parts m)
     | None => []
     end) faults.
 
@@ -285,7 +301,7 @@ Definition fault_item (details : list item) : item :=
    (WSDL 1.1 3.5), operation name + "Response" for the response (SOAP 1.1 7.1 convention,
    WS-I BP 1.1 R2729).  In a response every Body child is optional: either they or the
    Fault appear; so is the Header of a response (a Fault response need not carry it). *)
-Definition envelope (d : definitions) (style : str) (wrapper : str) (is_output : bool)
+Definition envelope (st : simple_types) (d : definitions) (style : str) (wrapper : str) (is_output : bool)
            (obm : option b_msg) (optm : option pt_msg) (faults : list pt_msg) : option item :=
   match obm, optm with
   | Some bm, Some ptm =>
@@ -295,67 +311,42 @@ Definition envelope (d : definitions) (style : str) (wrapper : str) (is_output :
           let children :=
             if str_eqb style s_rpc then
               [Node (match bodyns with Some u => u | None => [] end) wrapper (negb is_output)
-                    (flat_map (fun p => olist (rpc_part_item p)) sel)]
-            else flat_map (fun p => olist (direct_part_item (negb is_output) p)) sel in
+                    (flat_map (fun p => olist (rpc_part_item st p)) sel)]
+            else flat_map (fun p => olist (direct_part_item st (negb is_output) p)) sel in
           let body := Node SOAP_ENV s_Body true
-                        (children ++ (if is_output then [fault_item (fault_details d faults)] else [])) in
-          let header := if has_header bm then [Node SOAP_ENV s_Header (negb is_output) (header_items d bm)] else [] in
+                        (children ++ (if is_output then [fault_item (fault_details st d faults)] else [])) in
+          let header := if has_header bm then [Node SOAP_ENV s_Header (negb is_output) (header_items st d bm)] else [] in
           Some (Node SOAP_ENV s_Envelope true (header ++ [body]))
       | _, _ => None
       end
   | _, _ => None
   end.
 
-Definition expected_op (d : definitions) (p : port) (b : binding) (pt : port_type) (bo : b_operation)
+Definition expected_op (st : simple_types) (d : definitions) (p : port) (b : binding) (pt : port_type) (bo : b_operation)
   : list service_desc :=
   match find_by pto_name (pt_operations pt) (bo_name bo) with
   | Some po =>
       let style := effective_style b bo in
       [mk_sd (pt_name pt ++ s_underscore ++ bo_name bo)
              (Some style) (port_address p) (obind (b_soap b) sb_transport) (obind (bo_soap bo) so_action)
-             (envelope d style (bo_name bo) false (bo_input bo) (pto_input po) [])
-             (envelope d style (bo_name bo ++ s_Response) true (bo_output bo) (pto_output po) (pto_faults po))]
+             (envelope st d style (bo_name bo) false (bo_input bo) (pto_input po) [])
+             (envelope st d style (bo_name bo ++ s_Response) true (bo_output bo) (pto_output po) (pto_faults po))]
   | None => []
   end.
 
-Definition expected_port (d : definitions) (p : port) : list service_desc :=
+Definition expected_port (st : simple_types) (d : definitions) (p : port) : list service_desc :=
   match obind (resolve_local d (port_ns p) (port_binding p)) (find_by b_name (d_bindings d)) with
   | Some b =>
       match obind (resolve_local d (b_ns b) (b_type b)) (find_by pt_name (d_port_types d)) with
-      | Some pt => flat_map (expected_op d p b pt) (b_operations b)
+      | Some pt => flat_map (expected_op st d p b pt) (b_operations b)
       | None => []
       end
   | None => []
   end.
 
-(* XSD: an element whose type is a user-defined simple type carries text of the builtin the
-   type restricts; a data-binding tool may represent it by that builtin.  `simple` lists
-   the global simple types: (namespace, name, builtin base | None when the binding keeps
-   the type, e.g. an enumeration).  Shapes are compared after this canonicalisation. *)
-Definition simple_types := list (str * str * option str).
-Fixpoint simple_base (e : simple_types) (u l : str) : option str :=
-  match e with
-  | [] => None
-  | (u', l', b) :: r => if str_eqb u' u && str_eqb l' l then b else simple_base r u l
-  end.
-Definition canon_tref (e : simple_types) (t : tref) : tref :=
-  match t with
-  | TRef u l => match simple_base e u l with Some b => TNative b | None => t end
-  | _ => t
-  end.
-Fixpoint canon_item (e : simple_types) (i : item) : item :=
-  match i with
-  | Leaf n l r t => Leaf n l r (canon_tref e t)
-  | Node n l r cs => Node n l r (map (canon_item e) cs)
-  | Content t => Content (canon_tref e t)
-  end.
-Definition canon_sd (e : simple_types) (s : service_desc) : service_desc :=
-  mk_sd (sd_name s) (sd_style s) (sd_location s) (sd_transport s) (sd_soap_action s)
-        (option_map (canon_item e) (sd_input s)) (option_map (canon_item e) (sd_output s)).
-
 (* one description per service x port x bound operation, in document order *)
-Definition expected (d : definitions) : list service_desc :=
-  flat_map (fun s => flat_map (expected_port d) (svc_ports s)) (d_services d).
+Definition expected (st : simple_types) (d : definitions) : list service_desc :=
+  flat_map (fun s => flat_map (expected_port st d) (svc_ports s)) (d_services d).
 
 (* ------------------------------------------------------------------ concrete XML vs shape *)
 (* element tree of a posted payload as read by an independent XML parser: expanded name
@@ -408,6 +399,10 @@ Definition http_ok (sd : service_desc) (url : str) (headers : list (str * str)) 
 
 (* ------------------------------------------------------------------ the supported fragment *)
 Definition nonempty (s : str) : bool := match s with [] => false | _ => true end.
+(* a namespace name: non-empty and not a bare fragment ("#...") *)
+Definition uri_ok (u : str) : bool := match u with [] => false | c :: _ => negb (c =? 35) end.
+(* NMTOKENS as written in practice: printable ASCII separated by XML white space *)
+Definition tokens_ascii (s : str) : bool := forallb (fun c => xml_ws c || ((33 <=? c) && (c <=? 126))) s.
 Definition is_some {A} (o : option A) : bool := match o with Some _ => true | None => false end.
 
 Fixpoint nodup_str (l : list str) : bool :=
@@ -424,8 +419,8 @@ Definition style_ok (o : option str) : bool :=
 Definition part_ok (p : part) : bool :=
   nonempty (part_name p) &&
   match part_element p, part_type p with
-  | Some e, None => match resolve_qname (part_ns p) e with Some (u, l) => nonempty u | None => false end
-  | None, Some t => match resolve_qname (part_ns p) t with Some (u, l) => nonempty u | None => false end
+  | Some e, None => match resolve_qname (part_ns p) e with Some (u, l) => uri_ok u | None => false end
+  | None, Some t => match resolve_qname (part_ns p) t with Some (u, l) => uri_ok u | None => false end
   | _, _ => false
   end.
 
@@ -442,11 +437,11 @@ Definition b_msg_ok (d : definitions) (style : str) (bm : b_msg) (ptm : pt_msg) 
   match the_body bm, find_message d (ptm_ns ptm) (ptm_message ptm) with
   | Some (use, bodyns, parts), Some m =>
       ostr_eqb use (Some s_literal)
-      && (negb (str_eqb style s_rpc) || match bodyns with Some u => nonempty u | None => false end)
+      && (negb (str_eqb style s_rpc) || match bodyns with Some u => uri_ok u | None => false end)
       && match parts with
          | None => true
          | Some s => let names := split_ws xml_ws s in
-                     nonempty (concat names)
+                     tokens_ascii s && nonempty (concat names)
                      && forallb (fun n => existsb (fun p => str_eqb (part_name p) n) (msg_parts m)) names
          end
       && forallb (fun e =>
